@@ -167,10 +167,128 @@ def variant(text, rng, kind):
         return relayout(text, rng, ws=0.2, glue=0.7, eol_comment=0.15)
     if kind == "splitall":
         return relayout(text, rng, ws=0.0, split=0.6, eol_comment=0.3)
+    if kind == "flush":
+        return flush_left(text)
+    if kind == "codetags":
+        return with_code_tags(text, rng)
+    if kind == "usecomments":
+        return use_comments(text, rng)
+    if kind == "blockcomments":
+        return block_comments(text, rng)
     raise ValueError(kind)
 
 
-VARIANTS = ["ws", "case", "comments", "lines", "messy", "tabs", "splitall", "glue"]
+def use_comments(text, rng, p=0.5):
+    """own-line comments (random column, sometimes after a blank line) in front of lines that start with `use`,
+    `library`, `context` and, with a smaller probability, any other line: where the indent of a comment is
+    decided by one rule and read by another"""
+    lines = text.split("\n")
+    ok = set(_outside_delimited(lines))
+    out = []
+    for i, line in enumerate(lines):
+        s = line.lstrip().lower()
+        q = p if s.startswith(("use ", "library ", "context ")) else 0.03
+        if i in ok and s and not s.startswith("--") and rng.random() < q:
+            if rng.random() < 0.3:
+                out.append("")
+            for _ in range(rng.choice([1, 1, 2])):
+                out.append(" " * rng.choice([0, 0, 2, 2, 4, len(line) - len(line.lstrip())]) + "-- note")
+        out.append(line)
+    return "\n".join(out)
+
+
+def block_comments(text, rng, p=0.06):
+    """block comments (header / body / footer, docs/configuring_block_comments.rst) in front of some lines"""
+    lines = text.split("\n")
+    ok = set(_outside_delimited(lines))
+    out = []
+    for i, line in enumerate(lines):
+        s = line.strip()
+        if i in ok and s and not s.startswith("--") and rng.random() < p:
+            ind = " " * rng.choice([0, 0, len(line) - len(line.lstrip())])
+            bar = ind + "--" + rng.choice(["-", "=", "+-"]) * rng.choice([20, 40, 78])
+            out.append(bar)
+            for _ in range(rng.choice([1, 2, 3])):
+                out.append(ind + rng.choice(["--text", "-- text", "--| text", "--!text", "--  text"]))
+            out.append(bar)
+        out.append(line)
+    return "\n".join(out)
+
+
+def _outside_delimited(lines):
+    """indexes of the lines that are not inside (or touching) a delimited comment or a preprocessor line"""
+    ok = []
+    inside = False
+    for i, line in enumerate(lines):
+        if inside or "/*" in line or "*/" in line or line.lstrip().startswith("`"):
+            if "/*" in line and "*/" not in line.split("/*")[-1]:
+                inside = True
+            elif "*/" in line:
+                inside = False
+            continue
+        ok.append(i)
+    return ok
+
+
+def flush_left(text):
+    """every line starts in column 0 (code nobody has indented yet: what the indent rules are for)"""
+    lines = text.split("\n")
+    ok = set(_outside_delimited(lines))
+    return "\n".join(l.lstrip(" \t") if i in ok else l for i, l in enumerate(lines))
+
+
+_RULE_IDS = []
+
+
+def _rule_ids():
+    if not _RULE_IDS:
+        import json
+
+        try:
+            t = json.load(open(os.path.join(os.path.dirname(os.path.dirname(os.path.abspath(__file__))), ".cache", "tables.json")))
+            _RULE_IDS.extend(r["id"] for r in t["rules"] if not r["deprecated"] and r["phase"] in (1, 2, 3, 4, 5, 6, 7))
+        except Exception:  # noqa: BLE001
+            _RULE_IDS.extend(["process_012", "whitespace_013", "architecture_004"])
+    return _RULE_IDS
+
+
+def with_code_tags(text, rng, p_region=0.12):
+    """`-- vsg_off [ids]` … `-- vsg_on [ids]` around random line ranges and a few `-- vsg_disable_next_line`
+    comments (own-line comments at the indentation of the next line, never inside a delimited comment)"""
+    lines = text.split("\n")
+    ok = _outside_delimited(lines)
+    if len(ok) < 4:
+        return text
+    ids = _rule_ids()
+    opens, closes, single = {}, {}, {}
+    k = 0
+    while k < len(ok) - 1:
+        if rng.random() < p_region:
+            span = rng.randrange(1, 9)
+            e = min(k + span, len(ok) - 1)
+            chosen = [] if rng.random() < 0.4 else rng.sample(ids, rng.randrange(1, 4))
+            tag = "".join(" " + i for i in chosen)
+            opens[ok[k]] = "-- vsg_off" + tag
+            closes[ok[e]] = "-- vsg_on" + (tag if rng.random() < 0.5 else "")
+            k = e + 1
+        else:
+            if rng.random() < 0.02:
+                single[ok[k]] = "-- vsg_disable_next_line" + "".join(" " + i for i in rng.sample(ids, rng.randrange(1, 3)))
+            k += 1
+    out = []
+    for i, l in enumerate(lines):
+        ind = l[: len(l) - len(l.lstrip(" \t"))]
+        if i in opens:
+            out.append(ind + opens[i])
+        if i in single:
+            out.append(ind + single[i])
+        out.append(l)
+        if i in closes:
+            out.append(ind + closes[i])
+    return "\n".join(out)
+
+
+VARIANTS = ["ws", "case", "comments", "lines", "messy", "tabs", "splitall", "glue", "flush", "codetags", "usecomments", "blockcomments"]
 
 
 # ------------------------------------------------------------------ configurations
